@@ -8,3 +8,4 @@ package main
 // when a run starts (base case: lemma statusInitial in pkg/status).
 //vc:func main
 //vc:  requires[C13] InvAll(statusFile, hasOK, tOK, pOK, hasCmp, tCmp, pCmp, chg, now)
+//vc:  requires[C12] !lockHeld && !lockClosed
